@@ -456,7 +456,7 @@ def run(chk):
     if chk.tier == 'thorough' and proved:
         chk.leanchecker(MODULE)
     if chk.tier == 'thorough':
-        configs = W.configs_for('thorough')
+        configs = [(c, s_) for c in ('g++', 'clang++-14') for s_ in ('c++11', 'c++14', 'c++17', 'c++20')]
         run_, stats = run_schemas(chk, 80, configs, values_per_msg=1, muts_per_image=4, max_image=260, max_chains=260,
                                   max_cursor_members=40)
     else:
